@@ -14,6 +14,9 @@
      tx      k code           a frame WE put on the wire (k = data ping pong close cont other)
      rx      k code           a peer frame was handed to data_received (k = data ping pong close bad)
      drop / eof               the fault injector cut the connection / the peer sent FIN
+     localclose               our own side tore the connection down without the WebSocket object
+                              (session / connector / protocol close(), request.transport.close())
+     pause / resume           write back-pressure from the transport began / ended
      cancel  t                task t was cancelled by the application
      tick                     virtual time advanced to now
      tclose                   our side called transport.close()
@@ -50,15 +53,16 @@ M0 == [ nClose |-> 0, closeSent |-> FALSE, rxClose |-> 0, rxBad |-> FALSE, nRx |
 
 R(mm, b) == [m |-> mm, bad |-> b]
 
-(* abn  = something ended the session abnormally: connection cut, protocol error, a close() call that was
-          cancelled or ran into the close timeout, a recorded exception()
+(* abn  = something ended the session abnormally: connection cut (by the peer, the network, or our own side
+          behind the WebSocket object's back), protocol error, a close() call that was cancelled or ran
+          into the close timeout
    soft = an operation failed but the session stayed open: a receive() that timed out or was cancelled, a
-          cancelled or refused send.  That excuses 1006 only as long as the application was not handed the
+          cancelled or refused send; likewise a recorded exception() (e.g. a heartbeat failure).  That excuses 1006 only as long as the application was not handed the
           peer's Close frame: once receive() returned CLOSE(c) and nothing abnormal ended the session, the
           reported code must be c.                                                                        *)
 Allowed(mm, e) ==
     (IF mm.rxClose # 0 THEN {mm.rxClose} ELSE {})
-    \cup (IF mm.abn \/ e.info # "" \/ (mm.soft /\ mm.seenClose = 0) THEN {1006} ELSE {})
+    \cup (IF mm.abn \/ ((mm.soft \/ e.info # "") /\ mm.seenClose = 0) THEN {1006} ELSE {})
     \cup (IF mm.rxBad THEN {1002} ELSE {})
 
 Step(e, c) ==
@@ -88,7 +92,7 @@ Step(e, c) ==
             IF e.k = "close" THEN R([m EXCEPT !.rxClose = IF @ = 0 THEN e.code ELSE @], "")
             ELSE IF e.k = "bad" THEN R([m EXCEPT !.rxBad = TRUE, !.abn = TRUE], "")
             ELSE R([m EXCEPT !.nRx = @ + 1], "")
-      [] e.ev \in {"drop", "eof"} -> R([m EXCEPT !.abn = TRUE, !.cut = TRUE], "")
+      [] e.ev \in {"drop", "eof", "localclose"} -> R([m EXCEPT !.abn = TRUE, !.cut = TRUE], "")
       [] e.ev = "cancel" -> R([m EXCEPT !.soft = TRUE], "")
       [] e.ev = "blocked" ->
             R([m EXCEPT !.blkRecv = @ \/ e.k = "receive", !.blkClose = @ \/ e.k = "close"], "")
